@@ -532,12 +532,85 @@ def make_hier(n, max_iterations, normalize, contiguous=False, refit=False):
                       stubs=["GaussianMixture -> contract double (symbolic bic(), symbolic predict())"], theory="QF_LRA/LIA", max_paths=30000)
 
 
+def make_fit_weight_contract(n):
+    """the precondition under which the E/M-step obligations are stated - the EM steps see sample weights that sum to one - is itself
+    a property of the real GaussianMixture.fit: for ANY non-negative weight vector with positive sum (any overall magnitude) every internal
+    step receives w_i / sum(w). The steps themselves are replaced by recording doubles here (they are decided in their own obligations)."""
+
+    def harness(ctx: PathCtx):
+        w = reals(ctx, "w", n, lo=0)
+        tot = w[0]
+        for x in w[1:]:
+            tot = tot + x
+        ctx.assume(tot.n > 0)
+        X = np.array([[float(i)] for i in range(n)])
+        seen = []
+        gm = GaussianMixture(n_components=1, max_iter=2, n_init=1, random_state=0)
+
+        def init(self, X_, sw):
+            seen.append(("initialisation", sw))
+            return np.array([1.0]), np.array([[0.0]]), np.array([[[1.0]]])
+
+        def estep(self, X_, weights, means, covs):
+            return np.ones((n, 1))
+
+        def mstep(self, X_, resp, sw):
+            seen.append(("M-step", sw))
+            return np.array([1.0]), np.array([[0.0]]), np.array([[[1.0]]])
+
+        def lb(self, X_, weights, means, covs, sw):
+            seen.append(("lower bound", sw))
+            return 0.0
+        from vf.engine.arr import patched_attr
+        with patched(cluster_mod, np=NpProxy(object_constructors=True)), \
+                patched_attr(GaussianMixture, _initialize_parameters=init, _e_step=estep, _m_step=mstep, _compute_lower_bound=lb):
+            gm.fit(X, sarr(list(w)))
+        ctx.check("steps-were-reached", z3.BoolVal(len(seen) >= 3))
+        conds = []
+        for name, sw in seen:
+            sw = list(np.asarray(sw, dtype=object).reshape(-1))
+            conds.append(z3.And(*[eq(SymReal.lift(sw[i]) * tot, w[i]) for i in range(n)]))
+        ctx.check("every-EM-step-receives-w/sum(w)", z3.And(*conds) if conds else z3.BoolVal(False))
+        return None
+
+    def replay(m, label, v):
+        w = np.array([float(m.get(f"w{i}", 1.0)) for i in range(n)])
+        X = np.array([[float(i)] for i in range(n)])
+        bad = None
+        for scale in (1.0, 1e-12, 1e-30, 1e6):
+            ws = w * scale
+            if not ws.sum() > 0:
+                continue
+            got = []
+            orig = GaussianMixture._m_step
+
+            def spy(self, X_, resp, sw):
+                got.append(np.array(sw, dtype=float))
+                return orig(self, X_, resp, sw)
+            GaussianMixture._m_step = spy
+            try:
+                with np.errstate(all="ignore"):
+                    GaussianMixture(n_components=1, max_iter=2, n_init=1, random_state=0).fit(X, ws)
+            finally:
+                GaussianMixture._m_step = orig
+            if got and not np.allclose(got[0], ws / ws.sum(), rtol=1e-9, atol=0):
+                bad = (ws.tolist(), got[0].tolist())
+                break
+        return {"reproduced": bad is not None, "signature": "fit:EM-steps-see-unnormalised-weights", "payload": {"weights": bad[0] if bad else None, "seen_by_m_step": bad[1] if bad else None},
+                "what": (f"GaussianMixture.fit(X, sample_weight={bad[0]}) hands the M-step the weights {bad[1]} (sum {sum(bad[1])!r}, not w/sum(w)): the absolute guards "
+                         f"1e-10 of the steps are only harmless for weights that sum to one" if bad else "the M-step receives w/sum(w) at every magnitude tried")}
+
+    return Obligation(f"fit-weight-contract-n{n}", harness, replay=replay, encodes=[GaussianMixture.fit],
+                      bounds=f"n={n} points, weights >= 0 with positive sum of ANY magnitude, 1 component, 2 EM iterations",
+                      stubs=["_initialize_parameters / _e_step / _m_step / _compute_lower_bound -> recording doubles (decided in their own obligations)"], theory="QF_NRA")
+
+
 def obligations(tier):
     # make_mstep_fp (bit-precise variance >= 0) is not scheduled: the QF_FP query with multipliers/dividers did not finish in 290 s;
     # make_mstep_rounding decides the same clause in the standard round-off model instead (sound for the real arithmetic)
     obs = [make_mstep(2, 1, 2, "full"), make_mstep(2, 2, 2, "diag"), make_mstep(2, 2, 1, "full"), make_mstep(3, 1, 1, "full"), make_replicas(1, "full"),
            make_hier(6, 1, True), make_hier(5, 2, False), make_hier(8, 2, False, contiguous=True),
-           make_hier(4, 1, True, refit=True), make_mstep_rounding(2, "full"), make_init_responsibilities(3, 2), make_estep_mstep(2, 1), make_estep_mstep(2, 2)]
+           make_hier(4, 1, True, refit=True), make_mstep_rounding(2, "full"), make_init_responsibilities(3, 2), make_estep_mstep(2, 1), make_estep_mstep(2, 2), make_fit_weight_contract(3)]
     if tier == "thorough":
         # (n=3 with K=2 or d=2: the PSD query is undecided by nlsat within 30 s - not scheduled)
         obs += [make_mstep(2, 2, 2, "full"), make_mstep(3, 1, 1, "diag"), make_replicas(2, "full"), make_replicas(1, "diag"),
